@@ -22,3 +22,28 @@ find "seeded/$ID/demo" -type f \( -name '*.o' -o -perm -u+x ! -name '*.sh' \) -s
 for r in build/tmp/seed-replays-$ID/*/*.plan; do [ -f "$r" ] && cp "$r" "seeded/$ID/" ; done 2>/dev/null
 rm -rf "build/tmp/seed-replays-$ID" "build/repo-$(printf '%s' "$WT" | md5sum | cut -c1-10)-asan"
 echo "{\"id\":\"$ID\",\"property\":\"$PROP\",\"make_test_rc\":$mt,\"demo_with_change_rc\":$with,\"demo_without_change_rc\":$without,\"check_cmd\":\"VERIF_REPO=<worktree with patch> ./check $PROP --secs $SECS\",\"check_rc\":$rc}" > "seeded/$ID/result.json"
+# meta.json: written here from the run itself; `change` / `needs_to_manifest` are the seeding agent's own words (demo/NOTES.md)
+python3 - "$ID" "$PROP" "$SECS" "$mt" "$with" "$without" "$rc" "$(echo "$out" | grep -m3 '^violation class=' | sed 's/^violation class=//; s/ (run.*//; s/ (w2 run.*//' | tr '\n' '|')" <<'PY'
+import json, sys, os, re
+ID, PROP, SECS, mt, w, wo, rc, cls = sys.argv[1:9]
+d = f"seeded/{ID}"
+notes = ""
+for n in ("NOTES.md", "notes.md"):
+    if os.path.exists(f"{d}/demo/{n}"): notes = open(f"{d}/demo/{n}", errors="replace").read()
+first = " ".join(notes.split())[:900]
+prev = {}
+if os.path.exists(f"{d}/meta.json"):
+    try: prev = json.load(open(f"{d}/meta.json"))
+    except Exception: prev = {}
+m = {"id": ID, "breaks_property": PROP,
+     "origin": "independent sub-agent given only the property text and a scratch worktree of /repo HEAD",
+     "change_and_trigger": prev.get("change_and_trigger") or ("see demo/NOTES.md: " + first),
+     "confirmed": {"make_test": "15/15 green with the change" if mt == "0" else f"make test rc {mt}", "demo_with_change_exit": int(w), "demo_without_change_exit": int(wo)},
+     "ran": f"tools/try-seed.sh {ID} <worktree> {PROP} {SECS}  (= VERIF_REPO=<worktree with patch> ./check {PROP} --secs {SECS})",
+     "check_exit": int(rc), "detected_as": cls.strip("|"),
+     "history": prev.get("history", [])}
+if isinstance(m["history"], str): m["history"] = [m["history"]]
+m["history"].append(f"run with check exit {rc}" + (f": {cls.strip('|')[:160]}" if cls else ""))
+json.dump(m, open(f"{d}/meta.json", "w"), indent=1)
+os.remove(f"{d}/result.json")
+PY
